@@ -481,7 +481,7 @@ Proof.
 Qed.
 
 Lemma on_tick_spec e x :
-  passive x (on_tick e x) \/ cand x (on_tick e x) (tick_maj e x).
+  calm (start_S e x) (on_tick e x) \/ cand x (on_tick e x) (tick_maj e x).
 Proof.
   rewrite on_tick_eq.
   set (s0 := start_S e x).
@@ -495,11 +495,11 @@ Proof.
   pose proof (tick_election_spec e s2) as H3. fold s3 in H3.
   assert (H4 : calm s3 s4).
   { subst s4. destruct (ok s3); [apply tick_post_calm | apply calm_refl]. }
-  destruct (ok s1); [|left; apply (rel0_passive e); auto].
-  destruct (ok s2); [|left; apply (rel0_passive e); auto].
+  destruct (ok s1); [|left; apply rel0_calm; auto].
+  destruct (ok s2); [|left; apply rel0_calm; auto].
   clearbody s4.
   destruct H3 as [H3|H3].
-  - left. apply (calm_passive e). eapply calm_trans; [|exact H4]. apply rel0_calm.
+  - left. eapply calm_trans; [|exact H4]. apply rel0_calm.
     eapply rel_trans; eauto.
   - right. destruct H3 as (me & A & B & C & D & E & F).
     destruct (same0_proj _ _ H2) as (A2 & R2 & B2 & C2 & D2 & L2). cbn in A2, R2, B2, C2, D2, L2.
